@@ -1,5 +1,7 @@
 import SqlgrepModel.Codec
-/- Driver handler for C16 cases: `cmp3 a b c` → model answers for the pair/triple. -/
+import SqlgrepModel.Model.CompareIntFloat
+/- Driver handlers for C16 cases: `cmp3 a b c` → model answers for the pair/triple; `cmpir (int i) (real bits)` → the
+   ALGORITHM of `compare_int_float` (`F64.compareIntFloatAlgo`) next to the specification (`F64.cmpIntReal`). -/
 namespace Sqlgrep.Drivers.C16
 open Sqlgrep
 
@@ -10,6 +12,15 @@ def handle (args : List Sexp) : String :=
     let e (x y : Value) := if Value.beq x y then "1" else "0"
     let h (x y : Value) := if Value.hashRepr x == Value.hashRepr y then "1" else "0"
     s!"cmp {o a b} {o b c} {o a c} {o b a} eq {e a b} {e b c} {e a c} {e a a} hash {h a b} {h b c} {h a c}"
+  | _ => "bad-case"
+
+/-- `cmpir i y`: what `compare_values(Int(i), Float(y))` answers, computed by the algorithm of the code
+(`Model/CompareIntFloat.lean`) and, next to it, by the specification `compareValues` uses (`Props/C16.lean`
+`int_real_comparison_algorithm_is_exact`: the two are equal); then the mirrored call `compare_values(Float(y), Int(i))` -/
+def handleCmpir (args : List Sexp) : String :=
+  match args.mapM Value.ofSexp with
+  | some [.int i, .real n] =>
+    s!"cmpir algo {showOrdering (F64.compareIntFloatAlgo i n)} spec {showOrdering (F64.cmpIntReal i n)} rev {showOrdering (F64.compareIntFloatAlgo i n).swap}"
   | _ => "bad-case"
 
 end Sqlgrep.Drivers.C16
